@@ -55,6 +55,7 @@ type ProxyCfg struct {
 	ServerRetryTimeout int
 	ServerConnections  int
 	StreamBuf          int // RCPROXY_VERIF_STREAMBUF, 0 = default
+	SlowLog            int // slowlog_slower_than in ms, 0 = off
 	LogLevel           string
 	WhiteEnable        bool
 	WhiteList          []string
@@ -134,8 +135,8 @@ func StartProxy(bin, dir string, cfg ProxyCfg) (*Proxy, error) {
 	if cfg.MsgMax > 0 {
 		fmt.Fprintf(&sb, "  msg_max_length_limit: %d\n", cfg.MsgMax)
 	}
-	fmt.Fprintf(&sb, "  slowlog_slower_than: 0\n  timeout: %d\n  conn_timeout: %d\n  server_retry_timeout: %d\n  disable_slave: %v\n  server_connections: %d\n",
-		cfg.Timeout, cfg.ConnTimeout, cfg.ServerRetryTimeout, cfg.DisableSlave, cfg.ServerConnections)
+	fmt.Fprintf(&sb, "  slowlog_slower_than: %d\n  timeout: %d\n  conn_timeout: %d\n  server_retry_timeout: %d\n  disable_slave: %v\n  server_connections: %d\n",
+		cfg.SlowLog, cfg.Timeout, cfg.ConnTimeout, cfg.ServerRetryTimeout, cfg.DisableSlave, cfg.ServerConnections)
 	if err := os.WriteFile(filepath.Join(dir, "rc.yaml"), []byte(sb.String()), 0o644); err != nil {
 		return nil, err
 	}
